@@ -253,14 +253,17 @@ CHECKS = {
             prefix_h([n for n in DECODE_STRUCTS if n not in ("RdaStatus", "VolumeDataBlock", "VcpElevation")]) +
             prefix_h(["RdaStatus", "VolumeDataBlock", "VcpElevation"], tier="thorough") + [
             dict(name="c08_get_datetime_total", what="date conversion total on all u16 x u32 / u16 x u16"),
-            dict(name="drd_total_name_byte0", bounded="<=2 blocks, 80-byte buffer, one symbolic name byte", what="type-31 decode + radial conversion: value or error"),
-            dict(name="drd_total_name_byte1", bounded="<=2 blocks, 80-byte buffer, one symbolic name byte", tier="thorough", what="same, name byte 1"),
-            dict(name="drd_total_name_byte2", bounded="<=2 blocks, 80-byte buffer, one symbolic name byte", tier="thorough", what="same, name byte 2"),
-            dict(name="drd_total_name_xyz", bounded="<=2 blocks, 80-byte buffer, name XYZ", what="unknown block name is an error"),
-            dict(name="drd_total_name_nonutf8", bounded="<=2 blocks, 80-byte buffer, name FF FF FF", tier="thorough", what="non-UTF-8 name"),
-            dict(name="drd_total_truncated", bounded="every prefix of a 48-byte one-block message", termination="unwind 50; the unchanged decoder needs <= 48 iterations of the prefix loop and <= 2 per inner loop", what="truncated type-31 message is an error, and decoding terminates"),
+            dict(name="drd_q_unknown_name_0", bounded="1 block, name byte 0 symbolic", what="unknown block name: value or error, never a panic; radial conversion total"),
+            dict(name="drd_q_unknown_name_1", bounded="1 block, name byte 1 symbolic", what="same, name byte 1"),
+            dict(name="drd_q_unknown_name_2", bounded="1 block, name byte 2 symbolic", what="same, name byte 2"),
+            dict(name="drd_q_pointer_any", bounded="1 block, pointer any u32, 80-byte message", what="backwards / overlapping / out-of-range pointer: value or error"),
+            dict(name="drd_q_truncated_boundaries", bounded="cuts at 9 structural boundaries of a 48-byte message", termination="unwind 10; the unchanged decoder needs 9 iterations of the cut loop and <= 2 per inner loop", what="truncated type-31 message is an error and decoding ends"),
+            dict(name="drd_q_gates_short", bounded="gates in {5, 1840, 65535} x word 8/16, 4 data bytes present", termination="unwind 8", what="declared gate bytes beyond the input: error, never a hang or a panic"),
             dict(name="drd_total_count_extreme", bounded="block count 65535, 40-byte input", what="huge block count with short input is an error"),
-            dict(name="drd_total_gates_short", bounded="one moment block declaring 0..=65535 gates x word size 8/16 with 4 data bytes present", termination="unwind 8", what="a moment block declaring more gate bytes than remain is an error, never a hang or a panic"),
+            dict(name="drd_total_name_byte0", bounded="<=2 blocks, 80-byte fully symbolic buffer, one symbolic name byte", tier="thorough", what="type-31 decode + radial conversion: value or error"),
+            dict(name="drd_total_name_xyz", bounded="<=2 blocks, 80-byte fully symbolic buffer, name XYZ", tier="thorough", what="unknown block name is an error"),
+            dict(name="drd_total_truncated", bounded="every prefix of a 48-byte one-block message, contents symbolic", tier="thorough", termination="unwind 50", what="truncated type-31 message is an error"),
+            dict(name="drd_total_gates_short", bounded="gates fully symbolic, 4 data bytes present", tier="thorough", termination="unwind 8", what="declared gate bytes beyond the input: error"),
         ])],
         trusted_base=STD_TRUST + KANI_TRUST + ["reader model (std::io)", "in-harness slice reader for the seeking decoder"],
         not_decided=["peak-memory clause: allocation sizes are functions of 8/16-bit fields (proved for the gate buffer: "
